@@ -21,7 +21,7 @@ ASSUMPTIONS = ["invalid_disparity values are float32-representable (the map is f
 GATES = {
     "two_blocks_both_axes_with_tie_and_allnan_in_later_block": 1,
     "nan_invalid_disparity": 1, "more_than_256_disparity_samples": 1,
-    "max_type_with_ties": 1, "similarity_volume_with_costs_at_or_below_minus_cmax": 3, "disparity_object_reused_for_a_volume_of_the_other_type": 3, "volume_computed_with_a_window_larger_than_1": 3, "volume_with_infinite_costs": 3, "volume_is_a_window_of_a_larger_buffer": 3, "volume_in_the_matching_cost_layout": 3,
+    "max_type_with_ties": 1, "similarity_volume_with_costs_at_or_below_minus_cmax": 1, "disparity_object_reused_for_a_volume_of_the_other_type": 1, "volume_computed_with_a_window_larger_than_1": 1, "volume_with_infinite_costs": 1, "volume_is_a_window_of_a_larger_buffer": 1, "volume_in_the_matching_cost_layout": 1,
     "all_27_patterns_D3": 1,
     "pipeline_disparity_steps": 5,
     "pixels_judged": 100000,
@@ -71,6 +71,9 @@ def cases(spec, ctx):
             yield {"work": "synth", "shape": [101, 250], "j": 98}
             for k in range(6):
                 yield {"work": "synth", "shape": [[5, 7], [3, 20], [9, 9]][k % 3], "j": 100 + 2 * k}
+            # directed constructors of the situation classes that otherwise depend on which shapes the seed selects
+            for k, fc in enumerate(("window", "matching-cost", "inf", "neg-similarity", "reuse", "window", "inf", "neg-similarity", "reuse")):
+                yield {"work": "synth", "shape": [[9, 12], [6, 15], [11, 8]][k % 3], "j": 301 + 2 * k, "force": fc}
     elif spec["work"] == "patterns":
         for tm in ("min", "max"):
             for inv in (-9999, "nan"):
@@ -159,11 +162,18 @@ def run_case(case, ctx):
         rows, cols = case["shape"]
         rng = ctx.rng("synth", rows, cols, case["j"])
         nd = int(rng.choice([1, 2, 3, 7]))
+        if case.get("force"):
+            nd = 7
         if rows * cols <= 400 and case["j"] % 2 == 0:
             nd = int(rng.choice([257, 300, 321]))  # more disparity samples than an 8-bit index can hold
         tm = ["min", "max"][int(rng.integers(0, 2))]
+        fc = case.get("force")
+        if fc == "neg-similarity":
+            tm = "max"
         subpix = int(rng.choice([1, 2, 4]))
         nan_kind = ["mixed", "interval", "holes", "allnan", "none"][int(rng.integers(0, 5))]
+        if case.get("force"):
+            nan_kind = "mixed"
         floaty = rng.random() < 0.25 or nd > 256
         d0 = int(rng.integers(-5, 3))
         disps = d0 + np.arange(nd) / float(subpix) if subpix > 1 else d0 + np.arange(nd)
@@ -179,13 +189,13 @@ def run_case(case, ctx):
             costs[(150 % rows) - 1, 120 % cols, :] = np.nan
             lo[150 % rows, 120 % cols], hi[150 % rows, 120 % cols] = 0, nd - 1
         cmax_attr = None
-        if tm == "max" and (case["j"] + rows + cols) % 2 == 1:
+        if tm == "max" and ((case["j"] + rows + cols) % 2 == 1 or fc == "neg-similarity"):
             # a bounded similarity (zncc: cmax 1) whose computable costs are all at or below -cmax on some pixels (anti-correlated
             # windows): a missing cost is still worse than any computable one
             costs = -costs - np.float32(1.0)
             cmax_attr = 1
         ctx.gate("similarity_volume_with_costs_at_or_below_minus_cmax", int(cmax_attr is not None and nan_kind != "none"))
-        with_inf = (case["j"] + rows + 2 * cols) % 5 == 2 and nd >= 2
+        with_inf = ((case["j"] + rows + 2 * cols) % 5 == 2 or fc == "inf") and nd >= 2
         if with_inf:
             # a few computable costs are infinite (overflowing squared differences, a plugin's "forbidden" marker): the worst
             # possible cost of the measure, on pixels that keep at least one finite cost
@@ -207,6 +217,8 @@ def run_case(case, ctx):
         # memory layout of the volume handed to the step: dense C order, the matching-cost step's layout (allocated
         # (disp, col, row) and transposed), Fortran order, or a window of a larger buffer (what .isel() of a volume gives)
         layout = ["C", "matching-cost", "F", "window"][(case["j"] + 3 * rows + cols) % 4 if rows * cols <= 40000 else 0]
+        if fc in ("window", "matching-cost"):
+            layout = fc
         if layout == "matching-cost":
             costs = np.ascontiguousarray(costs.transpose(2, 1, 0)).transpose(2, 1, 0)
         elif layout == "F":
@@ -218,6 +230,8 @@ def run_case(case, ctx):
         # the window the volume was computed with (offset_row_col = its radius): flags and costs of the border rows / columns
         # are whatever the producer of the volume put there, and must be carried over like the others
         wsz = [1, 3, 5, 1][(case["j"] + rows + cols) % 4] if min(rows, cols) >= 5 else 1
+        if fc == "reuse":
+            wsz = 3
         cv = gen.make_cv(costs, disps, tm, window_size=wsz, subpix=subpix, validity=validity, conf=conf, conf_names=names,
                          cmax=cmax_attr)
         ctx.gate("volume_computed_with_a_window_larger_than_1", int(wsz > 1))
@@ -237,7 +251,7 @@ def run_case(case, ctx):
             # the 'iff' clause cannot be read off the map; judge everything else with a sentinel comparison
             pass
         exp_idx = judge(ctx, case, before, cv, out, inv_val, tm, desc, pix_min, pix_max)
-        if rows * cols <= 40000 and (case["j"] + rows + cols) % 3 == 0:
+        if rows * cols <= 40000 and ((case["j"] + rows + cols) % 3 == 0 or fc == "reuse"):
             # step-by-step use of the API: the SAME disparity object then serves a second volume of the same shape and of the other
             # type of measure (the costs negated: the same winners), and a third one of another shape
             tm2 = "max" if tm == "min" else "min"
